@@ -261,6 +261,9 @@ pub fn at_program(s: &Value, i: &Value, mode: &str) -> String {
         "lit" => format!("{st}[{it}]"),
         "var" => format!("s := {st}; i := {it}; s[i]"),
         "fn" | "fnu" => format!("f := (s: {}, i: int) -> any {{ return s[i]; }}; f({st}, {it})", param_type(s, mode)),
+        // the operation sits in an INNER function; its operands are parameters of the enclosing function, captured
+        // when the inner function is made
+        "clo" => format!("mk := (s: {}, i: int) -> () -> any {{ return () -> any {{ return s[i]; }}; }}; mk({st}, {it})()", param_type(s, "fn")),
         other => panic!("mode {other}"),
     }
 }
@@ -275,6 +278,7 @@ pub fn len_program(s: &Value, mode: &str) -> String {
         "lit" => format!("std.len({st})"),
         "var" => format!("s := {st}; std.len(s)"),
         "fn" | "fnu" => format!("g := (s: {}) -> int {{ return std.len(s); }}; g({st})", param_type(s, mode)),
+        "clo" => format!("mk := (s: {}) -> () -> int {{ return () -> int {{ return std.len(s); }}; }}; mk({st})()", param_type(s, "fn")),
         other => panic!("mode {other}"),
     }
 }
@@ -299,7 +303,7 @@ pub fn slice_program(s: &Value, a: &Value, b: &Value, c: &Value, mode: &str, tra
             let e = format!("{st}{}", brackets(&at, &bt, &ct, trailing_colon));
             format!("({e}, std.len({e}))")
         }
-        "var" | "fn" | "fnu" => {
+        "var" | "fn" | "fnu" | "clo" => {
             let names = [("a", &at), ("b", &bt), ("c", &ct)];
             let name = |i: usize| if names[i].1.is_empty() { "" } else { names[i].0 };
             let br = brackets(name(0), name(1), name(2), trailing_colon);
@@ -307,6 +311,10 @@ pub fn slice_program(s: &Value, a: &Value, b: &Value, c: &Value, mode: &str, tra
             if mode == "var" {
                 let decls: String = present.iter().map(|(n, t)| format!("{n} := {t}; ")).collect();
                 format!("s := {st}; {decls}r := s{br}; (r, std.len(r))")
+            } else if mode == "clo" {
+                let params: String = present.iter().map(|(n, _)| format!(", {n}: int")).collect();
+                let args: String = present.iter().map(|(_, t)| format!(", {t}")).collect();
+                format!("mk := (s: {}{params}) -> () -> any {{ return () -> any {{ r := s{br}; return (r, std.len(r)); }}; }}; mk({st}{args})()", param_type(s, "fn"))
             } else {
                 let params: String = present.iter().map(|(n, _)| format!(", {n}: int")).collect();
                 let args: String = present.iter().map(|(_, t)| format!(", {t}")).collect();
@@ -428,7 +436,7 @@ fn replay(dir: &str, tier: &str) -> Value {
     let bounds = items(axes, "bounds").to_vec();
     let steps = items(axes, "steps").to_vec();
     let thorough = tier == "thorough";
-    let at_modes: &[&str] = if thorough { &["lit", "arrlit", "var", "fn", "fnu"] } else { &["lit", "arrlit", "fn", "fnu"] };
+    let at_modes: &[&str] = if thorough { &["lit", "arrlit", "var", "fn", "fnu", "clo"] } else { &["lit", "arrlit", "fn", "fnu", "clo"] };
     let at_rows = read_ndjson(&format!("{dir}/seqs_at.ndjson"));
     let slice_rows = read_ndjson(&format!("{dir}/seqs_slice.ndjson"));
     let parts = parallel(|w, nw| {
@@ -489,9 +497,9 @@ fn replay(dir: &str, tier: &str) -> Value {
                     cx.distinct.insert(format!("{s}{want_r}"));
                     let parity = (ri + bi + ci) % 2 == 0;
                     let modes: Vec<&str> = if thorough {
-                        vec!["lit", "arrlit", "var", "fn", "fnu"]
+                        vec!["lit", "arrlit", "var", "fn", "fnu", "clo"]
                     } else {
-                        vec!["lit", if parity { "fn" } else { "fnu" }, if (ri + bi) % 2 == 0 { "var" } else { "arrlit" }]
+                        vec!["lit", if parity { "fn" } else { "fnu" }, if (ri + bi) % 2 == 0 { "var" } else { "arrlit" }, if (ri + ci) % 3 == 0 { "clo" } else { "lit" }]
                     };
                     for mode in modes {
                         let program = slice_program(s, a, b, c, mode, parity);
@@ -599,7 +607,7 @@ fn record(n_cases: usize, path: &str) -> Value {
     for i in 0..n_cases {
         let s = random_seq(&mut rng, 12);
         let n = items(&s, if k(&s) == "string" { "cps" } else { "es" }).len();
-        let mode = *rng.pick(&["lit", "arrlit", "var", "fn", "fnu"]);
+        let mode = *rng.pick(&["lit", "arrlit", "var", "fn", "fnu", "clo"]);
         let rec = match rng.below(8) {
             0 => {
                 lens += 1;
